@@ -227,6 +227,19 @@ def run(ctx):
     rf = [fk for fk, es in by_frame.items() if len(es) == 2]
     lb = by_frame[rf[0]] if len(rf) == 1 else []
     rets = [ev for k, ev in eng.events.items() if k[1] == "ret" and len(rf) == 1 and ev["frame"] == rf[0]]
+    if not rets:
+        # the chunks may be read through a cursor type instead of load_bytes: the reader is then the function below
+        # recover_measurements that returns the (measurement bytes, Option<aux>) pair cut out of one byte string
+        cands = []
+        for k, ev in eng.events.items():
+            v_ = ev.get("value") if k[1] == "ret" else None
+            if v_ is not None and "recover_measurements" in ev["frame"] and v_.op == "agg" and len(v_.args) == 3 and \
+                    is_t(v_.args[2]) and v_.args[2].op in ("enum", "phi") and lin.window(v_.args[1]) is not None:
+                cands.append(ev)
+        if len(cands) == 1:
+            rets = cands
+            w_ = lin.window(cands[0]["value"].args[1])
+            lb = [{"argv": [w_[0]], "at": at}, {"argv": [w_[0]], "at": at}]
     if not rets or rets[0]["value"] is None or len(lb) != 2:
         ctx.add("C18.R9", AS + "::recover_measurements::{closure}#payload-reader", False,
                 "expected the payload-splitting closure with two load_bytes calls (found %d)" % len(lb), at)
